@@ -26,6 +26,11 @@ pub enum Profile {
     B { access: Vec<(Vec<u8>, Vec<u8>)>, times: Vec<u8>, unnamed: bool, dup: bool, pairs: bool },
     /// funnel / capacity
     C { times: Vec<u8> },
+    /// funnel over three resources (writers only): several groups can grow side by side
+    C3 { times: Vec<u8> },
+    /// "ballast" first (a resource-less system of weight `ballast`, which lets later light systems join
+    /// groups), then every access set over A,B,C with the light running times
+    AJ { ballast: u8, times: Vec<u8> },
     /// barriers
     D { access: Vec<(Vec<u8>, Vec<u8>)> },
     /// batches; `inner_max`: max number of ops in an inner plan
@@ -148,6 +153,8 @@ impl Profile {
             Profile::A { times } => format!("A(access x balance, times {:?})", times),
             Profile::B { access, times, unnamed, dup, pairs } => format!("B(deps; {} access sets, times {:?}, unnamed {}, dup {}, pairs {})", access.len(), times, unnamed, dup, pairs),
             Profile::C { times } => format!("C(funnel, times {:?})", times),
+            Profile::C3 { times } => format!("C3(funnel over 3 resources, writers, canonical up to resource renaming, times {:?})", times),
+            Profile::AJ { ballast, times } => format!("AJ(ballast of weight {} first, then access {{-,R,W}}^{{A,B,C}} x times {:?}: groups of 2+ form)", ballast, times),
             Profile::D { access } => format!("D(barriers; {} access sets)", access.len()),
             Profile::E { inner_max, rich } => format!("E(batches; inner plans of <= {} ops, rich {})", inner_max, rich),
             Profile::F => "F(thread-local)".to_string(),
@@ -188,6 +195,27 @@ impl Profile {
                 for (r, w) in [(vec![0u8], vec![]), (vec![], vec![0u8]), (vec![1u8], vec![]), (vec![], vec![1u8])] {
                     for t in times {
                         out.push((s(name.clone(), &r, &w, *t, vec![]), false));
+                    }
+                }
+            }
+            Profile::C3 { times } => {
+                // canonical up to renaming of the three resources: resource k may appear only after k-1
+                // (invariance of the plan under resource renaming is C19's business)
+                let used = prefix.iter().filter_map(|o| if let Op::Sys(x) = o { x.writes.first().copied() } else { None }).max().map_or(0, |m| m + 1);
+                for w in 0..3u8.min(used + 1) {
+                    for t in times {
+                        out.push((s(name.clone(), &[], &[w], *t, vec![]), false));
+                    }
+                }
+            }
+            Profile::AJ { ballast, times } => {
+                if i == 0 {
+                    out.push((s(name.clone(), &[], &[], *ballast, vec![]), false));
+                } else {
+                    for (r, w) in acc27() {
+                        for t in times {
+                            out.push((s(name.clone(), &r, &w, *t, vec![]), false));
+                        }
                     }
                 }
             }
